@@ -42,6 +42,20 @@ def runC09o (line : String) : String :=
     | none => "bad-op"
   | _ => "bad-op"
 
-def streams : List (String × (String → String)) := [("c07_otlp", runC07o), ("c09_otlp", runC09o)]
+/-- stream `c07_file` : (c07f THREADS EVENTS ROUNDS) — THREADS threads each emit EVENTS events to one real
+    `emit_file::FileSet`, flush, and look for their events on disk, ROUNDS times. Flush soundness (C07
+    `flush_sound` composed with C10 `acked_durable`) fixes the line for every schedule: nothing is missing and the
+    30 s flush of a healthy worker succeeds. -/
+def runC07f (line : String) : String :=
+  match Sexp.parse line with
+  | some (.list [.atom "c07f", t, e, r]) =>
+    match t.nat?, e.nat?, r.nat? with
+    | some t, some e, some r =>
+      if t == 0 || t > 8 || e > 5000 || r == 0 || r > 10 then "bad-op"
+      else s!"missing=0 unflushed=0\tthreads={min t 4}"
+    | _, _, _ => "bad-op"
+  | _ => "bad-op"
+
+def streams : List (String × (String → String)) := [("c07_otlp", runC07o), ("c09_otlp", runC09o), ("c07_file", runC07f)]
 
 end EmitModel.Driver.E2E
